@@ -1,6 +1,7 @@
 #define CANARY(n) __CPROVER_assert(0, "canary: " n " reaches the end (must FAIL)")
 #define TOK ((void*)(uintptr_t)8)
 _Bool nondet_bool(void); uint64_t nondet_u64(void);
+uint64_t __CPROVER_uninterpreted_EDGEL(uint64_t l, uint64_t a, uint64_t l2); uint64_t __CPROVER_uninterpreted_EDGER(uint64_t r, uint64_t a, uint64_t r2);
 uint64_t __CPROVER_uninterpreted_PSF(uint64_t l, uint64_t r); uint64_t __CPROVER_uninterpreted_FINL(uint64_t s); uint64_t __CPROVER_uninterpreted_FINR(uint64_t s);
 uint64_t __CPROVER_uninterpreted_STL(uint64_t s); uint64_t __CPROVER_uninterpreted_STR(uint64_t s); uint64_t __CPROVER_uninterpreted_SYML(uint64_t s, uint64_t a); uint64_t __CPROVER_uninterpreted_SYMR(uint64_t s, uint64_t a);
 #define PSF(l, r) __CPROVER_uninterpreted_PSF(l, r)
@@ -31,8 +32,9 @@ PM_INSRET PM_INSERT(void* m, void* kv) { PAIR_PU* p = (PAIR_PU*)kv; __CPROVER_as
 void* PMI_DEREF(void* it) { __CPROVER_assert(((void**)it)[0] != 0, "* on the entry inserted"); return &cell_pe; }
 void* PMI_ARROW(void* it) { __CPROVER_assert(((void**)it)[0] != 0, "-> on the entry inserted"); return &cell_pe; }
 void VECP_PUSH(void* v, PENTRY** pp) { __CPROVER_assert(v == g_stack && *pp == &cell_pe, "the entry just recorded is put on the stack"); }
-_Bool VECP_EMPTY(void* v) { return nondet_bool(); }
-PENTRY** VECP_BACK(void* v) { c_al = nondet_u64(); c_ar = nondet_u64(); cell_act.f0.f0 = c_al; cell_act.f0.f1 = c_ar; cell_act.f1 = PSF(c_al, c_ar); cell_actp = &cell_act; g_work = 1; g_sss_w = 0; return &cell_actp; }
+_Bool VECP_EMPTY(void* v) { __CPROVER_assert(!g_work || !(hl && hr) || g_edge_w, "C10: the product edge of two operand edges under the same symbol has been produced for the pair in hand"); return nondet_bool(); }
+PENTRY** VECP_BACK(void* v) { c_al = nondet_u64(); c_ar = nondet_u64(); cell_act.f0.f0 = c_al; cell_act.f0.f1 = c_ar; cell_act.f1 = PSF(c_al, c_ar); cell_actp = &cell_act; g_work = 1; g_sss_w = 0; g_edge_w = 0; seen_sy = 0; cur_sy = 0;
+  hl = __CPROVER_uninterpreted_EDGEL(c_al, wa, wl2) != 0; hr = __CPROVER_uninterpreted_EDGER(c_ar, wa, wr2) != 0; return &cell_actp; }
 void VECP_POP(void* v) { }
 /* ---- the pair in hand ---- */
 _Bool ISF(void* a, uint64_t* x) { if (a == (void*)g_lhs) { __CPROVER_assert(*x == c_al, "finality of the left component is asked of lhs"); return __CPROVER_uninterpreted_FINL(*x) != 0; }
@@ -40,15 +42,15 @@ _Bool ISF(void* a, uint64_t* x) { if (a == (void*)g_lhs) { __CPROVER_assert(*x =
 void SSF(void* a, uint64_t* x) { __CPROVER_assert(a == g_res && *x == PSF(c_al, c_ar) && __CPROVER_uninterpreted_FINL(c_al) != 0 && __CPROVER_uninterpreted_FINR(c_ar) != 0, "C10: a product state is final only if both components are"); }
 void* GLOOKUP(void* m, uint64_t* k) { if (m == m_l) { __CPROVER_assert(*k == c_al, "cluster of the left component");
     __CPROVER_assert(!(__CPROVER_uninterpreted_STL(c_al) != 0 && __CPROVER_uninterpreted_STR(c_ar) != 0 && __CPROVER_uninterpreted_SYML(c_al, ws) != 0 && __CPROVER_uninterpreted_SYMR(c_ar, ws) != 0) || g_sss_w,
-      "C10: a product of two start states is a start state under every common start symbol"); return nondet_bool() ? TOKLCL : (void*)0; }
-  __CPROVER_assert(m == m_r && *k == c_ar, "cluster of the right component"); return nondet_bool() ? TOKRCL : (void*)0; }
+      "C10: a product of two start states is a start state under every common start symbol"); return (hl || nondet_bool()) ? TOKLCL : (void*)0; }
+  __CPROVER_assert(m == m_r && *k == c_ar, "cluster of the right component"); return (hr || nondet_bool()) ? TOKRCL : (void*)0; }
 void SPC_NULL(void* s, void* n) { SP_PTR((SPC*)s) = 0; }
-void* CLU_BEGIN(void* c) { __CPROVER_assert(c == TOKLCL, "the symbols of the left cluster are traversed"); return nondet_bool() ? TOK : (void*)0; }
+void* CLU_BEGIN(void* c) { __CPROVER_assert(c == TOKLCL, "the symbols of the left cluster are traversed"); seen_sy = 0; return (hl || nondet_bool()) ? TOK : (void*)0; }
 void* CLU_END(void* c) { return (void*)0; }
-void* CLU_DEREF(void* it_) { CLI* it = (CLI*)it_; __CPROVER_assert(it->f0.f0 != 0, "no dereference of an end iterator"); cell_lentry.f0 = nondet_u64(); return &cell_lentry; }
-void* CLU_INC(void* it_) { CLI* it = (CLI*)it_; if (nondet_bool()) it->f0.f0 = 0; return it; }
+void* CLU_DEREF(void* it_) { CLI* it = (CLI*)it_; __CPROVER_assert(it->f0.f0 != 0, "no dereference of an end iterator"); cur_sy = hl && nondet_bool() && !seen_sy; if (cur_sy) seen_sy = 1; cell_lentry.f0 = nondet_u64(); if (cur_sy) cell_lentry.f0 = wa; else __CPROVER_assume(!hl || cell_lentry.f0 != wa); return &cell_lentry; }
+void* CLU_INC(void* it_) { CLI* it = (CLI*)it_; if (nondet_bool()) it->f0.f0 = 0; __CPROVER_assume(it->f0.f0 != 0 || !hl || seen_sy); return it; }
 void E_COPY(void* d, void* s) { __CPROVER_assert(s == (void*)&cell_lentry, "copy of the left (symbol, successors) entry under the cursor"); *(uint64_t*)d = cell_lentry.f0; c_lsym = cell_lentry.f0; g_lcopy = d; }
-void* CLU_FIND(void* c, uint64_t* k) { __CPROVER_assert(c == TOKRCL && *k == c_lsym, "C10: the right cluster is asked for the SAME symbol"); g_find_hit = nondet_bool(); return g_find_hit ? TOK : (void*)0; }
+void* CLU_FIND(void* c, uint64_t* k) { __CPROVER_assert(c == TOKRCL && *k == c_lsym, "C10: the right cluster is asked for the SAME symbol"); g_find_hit = (cur_sy && hr) ? 1 : nondet_bool(); return g_find_hit ? TOK : (void*)0; }
 void* CLU_ARROW(void* it) { __CPROVER_assert(((void**)it)[0] != 0 && g_find_hit, "-> on the entry found"); cell_rentry.f0 = c_lsym; return &cell_rentry; }
 void SS_COPY(void* d, void* s) { __CPROVER_assert(s == (void*)&cell_rentry.f1, "copy of the right successors under the common symbol"); g_rset = d; }
 _Bool IS_START(void* a, uint64_t* x) { if (a == (void*)g_lhs) { __CPROVER_assert(*x == c_al, "left component"); return __CPROVER_uninterpreted_STL(*x) != 0; } __CPROVER_assert(a == (void*)g_rhs && *x == c_ar, "right component"); return __CPROVER_uninterpreted_STR(*x) != 0; }
@@ -62,13 +64,15 @@ void* SPC_ASSIGN(void* d, void* s) { SP_PTR((SPC*)d) = SP_PTR((SPC*)s); return d
 void* URS(void* c, uint64_t* sym) { __CPROVER_assert(c == TOKRC && *sym == c_lsym, "C10: the successor set written is the one of the common symbol"); return &cell_rs; }
 void* SS_ASSIGN(void* d, void* s) { return d; }
 /* ---- successor pairs ---- */
-void* USET_BEGIN(void* s) { if (s == (void*)((uint8_t*)g_lcopy + 8)) return nondet_bool() ? K_LST : (void*)0; __CPROVER_assert(s == g_rset, "traversal of the two successor sets"); return nondet_bool() ? K_RST : (void*)0; }
+void* USET_BEGIN(void* s) { if (s == (void*)((uint8_t*)g_lcopy + 8)) { seen_l2 = 0; return ((hl && cur_sy) || nondet_bool()) ? K_LST : (void*)0; }
+  __CPROVER_assert(s == g_rset, "traversal of the two successor sets"); seen_r2 = 0; return ((hr && cur_sy) || nondet_bool()) ? K_RST : (void*)0; }
 void* USET_END(void* s) { return (void*)0; }
 uint64_t* USI_DEREF(void* it_) { USI* it = (USI*)it_; void* k = (void*)it->f0.f0; __CPROVER_assert(k != 0, "no dereference of an end iterator");
-  if (k == K_LST) { c_lstate = nondet_u64(); cell_v5 = c_lstate; return &cell_v5; } __CPROVER_assert(k == K_RST, "a known traversal"); c_rstate = nondet_u64(); cell_v6 = c_rstate; return &cell_v6; }
-void* USI_INC(void* it_) { USI* it = (USI*)it_; if (nondet_bool()) it->f0.f0 = 0; return it; }
-USET_INSRET USET_INSERT(void* s, uint64_t* x) { __CPROVER_assert(s == (void*)&cell_rs && *x == PSF(c_lstate, c_rstate), "C10: the state added is the product state of the successor pair"); USET_INSRET r; r.f1 = nondet_bool(); return r; }
+  if (k == K_LST) { cur_l2 = hl && cur_sy && nondet_bool() && !seen_l2; if (cur_l2) seen_l2 = 1; c_lstate = nondet_u64(); if (cur_l2) c_lstate = wl2; else __CPROVER_assume(!(hl && cur_sy) || c_lstate != wl2); cell_v5 = c_lstate; return &cell_v5; } __CPROVER_assert(k == K_RST, "a known traversal"); _Bool w = hr && cur_sy && nondet_bool() && !seen_r2; if (w) seen_r2 = 1; c_rstate = nondet_u64(); if (w) c_rstate = wr2; else __CPROVER_assume(!(hr && cur_sy) || c_rstate != wr2); cell_v6 = c_rstate; return &cell_v6; }
+void* USI_INC(void* it_) { USI* it = (USI*)it_; void* k = (void*)it->f0.f0; if (nondet_bool()) it->f0.f0 = 0;
+  if (k == K_LST) __CPROVER_assume(it->f0.f0 != 0 || !(hl && cur_sy) || seen_l2); else __CPROVER_assume(it->f0.f0 != 0 || !(hr && cur_sy) || seen_r2); return it; }
+USET_INSRET USET_INSERT(void* s, uint64_t* x) { __CPROVER_assert(s == (void*)&cell_rs && *x == PSF(c_lstate, c_rstate), "C10: the state added is the product state of the successor pair"); if (cur_sy && cur_l2 && c_lstate == wl2 && c_rstate == wr2) g_edge_w = 1; USET_INSRET r; r.f1 = nondet_bool(); return r; }
 void RUSL(void* ret, void* a, void* tm) { __CPROVER_assert(ret == (void*)g_ret && a == g_res && tm == (void*)0, "the product is returned through RemoveUselessStates"); g_ret_kind = 1; }
 void h_ISECT(void) { g_lhs = malloc(sizeof *g_lhs); g_rhs = malloc(sizeof *g_rhs); g_ret = malloc(sizeof *g_ret); m_l = malloc(64); m_r = malloc(64); m_res = malloc(64); __CPROVER_assume(g_lhs && g_rhs && g_ret && m_l && m_r && m_res);
-  SP_PTR(&g_lhs->f3) = m_l; SP_PTR(&g_rhs->f3) = m_r; g_pm_param = nondet_bool() ? malloc(56) : (void*)0; g_ret_kind = 0; g_work = 0; g_pmap = 0;
+  SP_PTR(&g_lhs->f3) = m_l; SP_PTR(&g_rhs->f3) = m_r; g_pm_param = nondet_bool() ? malloc(56) : (void*)0; g_ret_kind = 0; g_work = 0; g_pmap = 0; hl = 0; hr = 0; g_edge_w = 0;
   ISECT(g_ret, g_lhs, g_rhs, g_pm_param); CANARY("h_ISECT"); }
